@@ -504,6 +504,8 @@ func c27GenCallback(r *Rng, prefix string, allow []string) string {
 		state = XS("not-the-state")
 	case 4:
 		state = XS(c27Token(r))
+	case 6, 7:
+		state = "~"
 	case 5:
 		code = string(r.Bytes(r.Range(1, 20)))
 	}
